@@ -540,6 +540,15 @@ func init() {
 //	{"k":"gcol","file":"hex","addr":N,"os":4|8}            core.ReadGlobalHeapCollection    -> ok [sizes...] | err
 //	{"k":"ohdr","file":"hex","addr":N}                     core.ReadObjectHeader            -> ok [len(Messages)] | err
 //	{"k":"btree","file":"hex","addr":N,"nd":N}             core.ParseBTreeV1Node + CollectAllChunks -> ok [nchunks] | err
+//	{"k":"gnode","file":"hex","addr":N,"o":O}              structures.ReadGroupBTreeEntries -> ok [len(entries)] | err
+//	{"k":"snod","file":"hex","addr":N,"o":O}               structures.ParseSymbolTableNode  -> ok [name,obj,cache,bt,heap]* | err
+//	{"k":"hstr","file":"hex(heap data)","off":N}           structures.LocalHeap.GetString   -> ok [bytes] | err
+//	{"k":"bt2","file":"hex","addr":N,"o":O}                readBTreeV2HeaderRaw + readBTreeV2LeafRecords -> ok [nroot,total,root,id bytes...] | err
+//	{"k":"fheap","file":"hex","addr":N,"id":"hex","o":O,"l":L}  readFractalHeapHeaderRaw + parseHeapID + readHeapObject -> ok [bytes] | err
+//	{"k":"dense","file":"hex","fh":N,"bt":N,"o":O,"l":L}   readDenseAttributes -> ok [count] | err
+//	{"k":"convf","file":"hex(raw)","es":N,"cls":C,"n":N}   convertToFloat64 -> ok [len] | err
+//	{"k":"convs","file":"hex(raw)","es":N,"n":N}           convertToStrings (fixed strings) -> ok [len] | err
+//	{"k":"lzf","file":"hex(input)"}                        FilterPipelineMessage{LZF}.ApplyFilters -> ok [len(out), out bytes...] | err
 //
 // result {"c":"ok|err|panic","v":[...],"e":"...","alloc":bytes allocated by the call}
 type c07Model struct {
@@ -557,6 +566,10 @@ type c07Model struct {
 	L    uint8    `json:"l"`
 	OS   int      `json:"os"`
 	ND   int      `json:"nd"`
+	ID   string   `json:"id"`
+	Fh   uint64   `json:"fh"`
+	Bt   uint64   `json:"bt"`
+	N    uint64   `json:"n"`
 }
 
 func c07ModelRun(c *c07Model, file []byte) (v []uint64, err error) {
@@ -635,6 +648,100 @@ func c07ModelRun(c *c07Model, file []byte) (v []uint64, err error) {
 			return nil, err
 		}
 		return []uint64{uint64(len(ch))}, nil
+	case "gnode":
+		sb2 := *sb
+		sb2.OffsetSize = c.O
+		es, err := structures.ReadGroupBTreeEntries(r, c.Addr, &sb2)
+		if err != nil {
+			return nil, err
+		}
+		return []uint64{uint64(len(es))}, nil
+	case "snod":
+		sb2 := *sb
+		sb2.OffsetSize = c.O
+		nd, err := structures.ParseSymbolTableNode(r, c.Addr, &sb2)
+		if err != nil {
+			return nil, err
+		}
+		out := []uint64{}
+		for _, e := range nd.Entries {
+			out = append(out, e.LinkNameOffset, e.ObjectAddress, uint64(e.CacheType), e.CachedBTreeAddr, e.CachedHeapAddr)
+		}
+		return out, nil
+	case "hstr":
+		h := &structures.LocalHeap{Data: file}
+		s, err := h.GetString(c.Off)
+		if err != nil {
+			return nil, err
+		}
+		out := []uint64{}
+		for _, b := range []byte(s) {
+			out = append(out, uint64(b))
+		}
+		return out, nil
+	case "bt2":
+		sb2 := *sb
+		sb2.OffsetSize = c.O
+		nroot, total, root, ids, err := core.VerifReadBTreeV2Raw(r, c.Addr, &sb2)
+		if err != nil {
+			return nil, err
+		}
+		out := []uint64{uint64(nroot), total, root}
+		for _, id := range ids {
+			for _, b := range id {
+				out = append(out, uint64(b))
+			}
+		}
+		return out, nil
+	case "fheap":
+		sb2 := *sb
+		sb2.OffsetSize, sb2.LengthSize = c.O, c.L
+		id, err := hex.DecodeString(c.ID)
+		if err != nil {
+			return nil, fmt.Errorf("harness: %w", err)
+		}
+		b, err := core.VerifDenseHeapRead(r, c.Addr, id, &sb2)
+		if err != nil {
+			return nil, err
+		}
+		out := []uint64{}
+		for _, x := range b {
+			out = append(out, uint64(x))
+		}
+		return out, nil
+	case "dense":
+		sb2 := *sb
+		sb2.OffsetSize, sb2.LengthSize = c.O, c.L
+		n, err := core.VerifReadDenseAttributes(r, c.Fh, c.Bt, &sb2)
+		if err != nil {
+			return nil, err
+		}
+		return []uint64{uint64(n)}, nil
+	case "convf":
+		dt := &core.DatatypeMessage{Class: core.DatatypeClass(c.Cls), Version: 1, Size: c.ES, ClassBitField: 8}
+		out, err := core.VerifConvertToFloat64(file, dt, c.N)
+		if err != nil {
+			return nil, err
+		}
+		return []uint64{uint64(len(out))}, nil
+	case "convs":
+		dt := &core.DatatypeMessage{Class: core.DatatypeString, Version: 1, Size: c.ES}
+		out, err := core.VerifConvertToStrings(file, dt, c.N)
+		if err != nil {
+			return nil, err
+		}
+		return []uint64{uint64(len(out))}, nil
+	case "lzf":
+		fp := &core.FilterPipelineMessage{Version: 2, NumFilters: 1, Filters: []core.Filter{{ID: core.FilterLZF}}}
+		b, err := fp.ApplyFilters(file)
+		if err != nil {
+			return nil, err
+		}
+		out := []uint64{}
+		for _, x := range b {
+			out = append(out, uint64(x))
+		}
+		return out, nil
 	}
 	return nil, fmt.Errorf("harness: unknown kind %q", c.K)
 }
